@@ -36,7 +36,7 @@ LEAN_TARGETS = ["RV.C14.Props", "RV.C14.Audit"]
 AUDIT = "RV/C14/Audit.lean"
 DRIVER = "drv_c14"
 N_EXH = None  # number of exhaustive class cases (computed lazily)
-CASES = {"quick": 440, "thorough": 12000, "search": 6000}
+CASES = {"quick": 380, "thorough": 12000, "search": 6000}
 RULE = ("pairs (g, relabel+shuffle g), (g, degree-preserving edge switch / edge move / predicate or ground-term change of g), "
         "known non-isomorphic regular twins, over cycles, bidirected cycles, K_{m,n}, disjoint (non-)identical components, "
         "prisms, cube, Moebius ladders, Petersen, CFI(C3), rdf lists, star-of-stars, random sparse graphs mixing IRIs / "
@@ -83,7 +83,7 @@ def T(s):
 
 
 def is_b(s):
-    return isinstance(s, str) and s.startswith("_:")
+    return type(s) is str and s.startswith("_:")   # rdflib terms are str subclasses: only plain strings are case terms
 
 
 def mk_graph(triples):
@@ -449,7 +449,7 @@ def encode_pair(g1, g2):
     voc = {}
 
     def code(x):
-        k = x if is_b(x) or not isinstance(x, str) else T(x)   # ground terms are numbered by rdflib term equality
+        k = x if is_b(x) or type(x) is not str else T(x)   # ground terms are numbered by rdflib term equality
         if k not in voc:
             voc[k] = len(voc)
         return 2 * voc[k] + (1 if is_b(x) else 0)
